@@ -760,11 +760,13 @@ class TypeGen:
         for fn in names:
             t = draw(self._t(d - 1, counter, inner_open, False))
             fields.append({"n": fn, "t": t, "d": None})
-        # defaults
+        # defaults; one model in five tries to give every field a default: only then the FIRST key of the model's mapping
+        # is an optional one (required fields come first), which takes a path of its own through the generated loader
+        all_optional = draw(st.integers(0, 4)) == 0
         for f in fields:
             if _mentions_ref(f["t"], name) and f["t"][0] == "optional":
                 continue
-            if draw(st.integers(0, 2)) == 0:
+            if all_optional or draw(st.integers(0, 2)) == 0:
                 f["d"] = "?"  # resolved below (needs value strategy)
         for f in fields:
             if f["d"] == "?":
